@@ -95,6 +95,12 @@ def are_joinable(
     if any_symbols:
         return JoinableResult(False, "block2 has symbols referring to it")
 
+    if block2.size and any(
+        sym.at_end for sym in cache.reference_cache.get_references(block1)
+    ):
+        # A symbol at the end of block1 would end up after block2's bytes.
+        return JoinableResult(False, "block1 has symbols referring to its end")
+
     if isinstance(block1, gtirb.DataBlock):
         for table_def in (_auxdata.types, _auxdata.encodings):
             table = table_def.get(module)
